@@ -109,6 +109,17 @@ def gen_case(rng, backend, ties: bool, dfs=None, fixed=None):
     else:
         k = rng.choice([2, 2, 3, 3, 4])
         names = rng.sample(["a", "b", "c", "d", "ds_x", "Bq"], k)
+        odd_names = rng.random() < 0.4
+        if odd_names:
+            # dataset NAMES are data, not identifiers: names differing only by case, with spaces, hyphens,
+            # leading digits, a single quote, SQL keywords (FX-C12-dataset-name-flags)
+            pool = ["A", "a", "Ab", "aB", "left set", "right-set", "1st", "2nd source", "o'brien", "select", "group", "Order", "order", "b"]
+            names = rng.sample(pool, k)
+            if rng.random() < 0.6 and k >= 2:              # force a pair that differs only by case
+                pair = rng.choice([("A", "a"), ("Ab", "aB"), ("Order", "order")])
+                names = list(pair) + [x for x in names if x.lower() != pair[0].lower()][:k - 2]
+                rng.shuffle(names)
+                k = len(names)
         nodes = []
         uid_pool = rng.sample([1, 2, 3, 7, 9, 10, 11, 20, 21, 100, 101, 5, 30], 13)
         shared_uids = rng.random() < 0.5            # same unique_id values reused across datasets
@@ -166,7 +177,13 @@ def gen_case(rng, backend, ties: bool, dfs=None, fixed=None):
     if dfs is None:
         subsets = [s for r in range(1, k + 1) for s in itertools.combinations(names, r)]
         dfs = list(rng.choice(subsets))
+    lower = [x.lower() for x in names]
+    twins = [x for x in names if lower.count(x.lower()) > 1]
+    if twins and rng.random() < 0.7:
+        dfs = sorted(set(dfs) | set(twins))    # both spellings declared duplicate-free
     form = rng.choice(["single", "single", "multi"])
+    if any(x not in ("a", "b", "c", "d", "ds_x", "Bq") for x in names):
+        form = "single"          # table aliases must be identifiers; odd names only as source_dataset values
     return {"backend": backend, "names": names, "nodes": nodes, "edges": edges, "thr": thr, "thr_weight": thr_weight,
             "dfs": list(dfs), "form": form, "ties_wanted": ties}
 
@@ -659,9 +676,37 @@ def correspondence(ctx: Ctx):
         ctx.violation(f"cluster_using_single_best_links: {kind} in call {k + 1} on one linker after re-registering the predictions "
                       f"({case['backend']})", rep, f)
 
+    def name_class(case):
+        names = case["names"]
+        return ("case-twins" if len({x.lower() for x in names}) < len(names)
+                else "odd" if any(x not in ("a", "b", "c", "d", "ds_x", "Bq") for x in names) else "plain")
+
+    def report_raise(case, ex, hist):
+        """The implementation raises on an input for which the model has an answer."""
+        ctx.count_case(json.dumps(case, sort_keys=True, default=str), False)
+        f = {"kind": "raises", "error": type(ex).__name__, "backend": case["backend"], "dataset_names": name_class(case),
+             "history": hist is not None}
+        key = json.dumps(f, sort_keys=True)
+        if key in reported:
+            return
+        reported.add(key)
+        rep = {"case": case, "implementation": {"raised": f"{type(ex).__name__}: {str(ex)[:600]}"}}
+        if hist is not None:
+            rep["history"] = hist
+        ctx.violation(f"cluster_using_single_best_links raises {type(ex).__name__} on an input with a defined answer "
+                      f"(dataset names {case['names']}, duplicate-free {case['dfs']}, {case['backend']})", rep, f)
+
     def one(case, result=None):
         nonlocal skipped_steps
-        trace, final = result if result is not None else run_impl(case)
+        if result is None:
+            try:
+                result = run_impl(case)
+            except Exception as ex:  # noqa: BLE001
+                if case.get("no_threshold"):
+                    raise
+                report_raise(case, ex, None)
+                return
+        trace, final = result
         info, problems = case_term(case, trace, final)
         problems = oracle(case, final) + problems
         tf = tie_free(case)
@@ -673,6 +718,8 @@ def correspondence(ctx: Ctx):
         ctx.hist("backend", case["backend"])
         ctx.hist("tie_free", tf)
         ctx.hist("n_datasets", len(case["names"]))
+        ctx.hist("dataset_names", "case-twins" if len({x.lower() for x in case["names"]}) < len(case["names"])
+                 else "odd" if any(not re.fullmatch(r"[A-Za-z_][A-Za-z_]*", x) or x.lower() in ("select", "group", "order") for x in case["names"]) else "plain")
         ctx.hist("n_duplicate_free", len(case["dfs"]))
         ctx.hist("iterations", len(trace))
         ctx.hist("form", case["form"])
@@ -693,7 +740,11 @@ def correspondence(ctx: Ctx):
         for _ in range(30 if quick else 300):
             h = gen_history(ctx.rng, backend)
             hists.append(h)
-            res = run_history(h["calls"], h["keep_output"])
+            try:
+                res = run_history(h["calls"], h["keep_output"])
+            except Exception as ex:  # noqa: BLE001
+                report_raise(h["calls"][0], ex, {"calls": h["calls"], "keep_output": h["keep_output"]})
+                continue
             ctx.hist("calls_per_linker", len(h["calls"]))
             for k, (c, r) in enumerate(zip(h["calls"], res)):
                 c["_hist"] = {"id": len(hists) - 1, "k": k}
